@@ -75,8 +75,8 @@ def parse(pattern):
     return p
 
 
-def universe(patterns):
-    pts = set(BASE_POINTS)
+def universe(patterns, extra=""):
+    pts = set(BASE_POINTS) | set(ord(c) for c in extra)
     for pat in patterns:
         _collect_points(parse(pat), pts)
     return sorted(p for p in pts if 0 <= p <= 0x10ffff)
